@@ -50,7 +50,34 @@ def relation_setters_accumulate(fx, res, rule):
             m = re.search(r"self\.(\w+)$", expr(b, c.args[0]))
             if m and m.group(1) in REL_FIELDS:
                 n_acc += 1
-    res.ok(rule, "relation-setters-accumulate", "clap_builder/src/builder/{arg,arg_group}.rs", "%d push/extend sites on relation vectors, no wholesale assignment" % n_acc)
+    # ... and nobody else touches them: what `a.overrides_with(b)` / `conflicts_with` / `requires*` declared is what the parser and the
+    # validator read — no build step derives further relations from the declared ones
+    OWN = ["blacklist", "overrides", "requires", "r_ifs", "r_ifs_all", "r_unless", "r_unless_all", "conflicts"]
+    MUT = r"Vec(<[^>]*>)?::(push|extend_from_slice|insert|remove|clear|retain|append|dedup\w*|truncate|drain|swap_remove|pop)$|Extend(<[^>]*>)?>?::extend$"
+    n_out = 0
+    for b in fx.bodies(r"^clap_builder::"):
+        if re.match(r"^clap_builder::builder::(arg::Arg|arg_group::ArgGroup)::", b.q) and b.kind != "Closure":
+            continue
+        top = b
+        while top.kind == "Closure" and top.parent is not None:
+            top = top.parent
+        if re.match(r"^clap_builder::builder::(arg::Arg|arg_group::ArgGroup)::", top.q):
+            continue
+        for c in b.calls_to(MUT):
+            e = expr(b, c.args[0])
+            m = re.search(r"\.(%s)\)?$" % "|".join(OWN), e)
+            if m and not re.match(r"^(deref_mut\()?(clone|to_vec|to_owned|cloned|collect)\(", e):
+                n_out += 1
+                res.violation(rule, "relation-written-outside-setters|%s|%s" % (top.q.rsplit("::", 1)[1], m.group(1)), c.where(),
+                              "%s changes `%s` of an argument/group (%s): relations nobody declared are added (or declared ones dropped) behind the user's back — e.g. chained overrides make a mutually overriding pair override itself" % (top.q, m.group(1), c.callee_q.rsplit("::", 1)[1]))
+        for f in OWN:
+            for i, s_ in writes_field(b, f):
+                if s_["rv"]["k"] == "agg" or (s_["rv"]["k"] == "use" and re.match(r"^(new\(\)|Vec::new|default\()", expr(b, s_["rv"]["op"]))):
+                    continue        # constructing a fresh value (Arg::new / Default)
+                n_out += 1
+                res.violation(rule, "relation-written-outside-setters|%s|%s" % (top.q.rsplit("::", 1)[1], f), "%s in %s" % (sp_str(s_["sp"]), b.q),
+                              "%s assigns `%s` of an argument/group outside the declared setters" % (top.q, f))
+    res.ok(rule, "relation-setters-accumulate", "clap_builder/src/builder/{arg,arg_group}.rs", "%d push/extend sites on relation vectors, no wholesale assignment; %d writers outside the setters" % (n_acc, n_out))
     res.floor(rule, "accumulating relation setters in Arg/ArgGroup", n_acc, 18)
 
 
